@@ -62,6 +62,11 @@ func H_C10_delivertx() {
 func H_C10_checktx() {
 	b := vfBounds()
 	app := vfApp(b)
+	if vfParam("commit_first", 0) == 1 {
+		// the mempool state is reset at every commit: what it forgets is the per-block
+		// bookkeeping, not who is allowed to send
+		_ = app.Commit()
+	}
 	pre := vfDeepCopy(app)
 	tx := vfTx(vfParam("list", 1))
 	resp := app.CheckTx(abcitypes.RequestCheckTx{Tx: tx})
